@@ -19,7 +19,7 @@ RULE = (
     "types, random loads); oracle: Loadings rows = 8760 inputs in order with O1 labels and Time=index, BoreFieldData rows = "
     "the coordinates exactly in order, Gfunction rows = (x, y, y_bhw) of grab_g_function(B/H) with strictly increasing x. "
     "Non-trivial: hours -> first/last hour of a day or month; months -> a time within 1 h of a month boundary; tables -> "
-    "every case (distinct by hash)."
+    "every case (distinct by hash). design_tables: the same three tables after complete L2 design runs of every method."
 )
 
 
@@ -153,9 +153,82 @@ def search_tables(ctx):
     ctx.given_shared(build.ghe_case(months=st.sampled_from([12, 24, 60])), ctx.total(64, 1200))
 
 
+def check_design_tables(case, rec):
+    """tables of a complete design run (L2 seam): bore field = selected coordinates, g-function = curve used at the final height"""
+    import warnings
+
+    from vlib import gen_scenarios as gs
+
+    out = gs.run_design(case, "L2")
+    if out.error is not None:
+        rec.cls(f"no_design({type(out.error).__name__})")
+        return
+    mgr = out.manager
+    with warnings.catch_warnings(), gs.layer_ctx("L2"):
+        warnings.simplefilter("ignore")
+        guarded(mgr.prepare_results, "p", "n", "a", "i", what="prepare_results")
+    res = mgr.results
+    sel = [[float(x), float(y)] for x, y in out.search.selected_coordinates]
+    rows = [[float(r[0]), float(r[1])] for r in res.borehole_location_data_rows[1:]]
+    if rows != sel:
+        raise Violation(f"BoreFieldData lists {len(rows)} rows that differ from the {len(sel)} selected coordinates",
+                        sig={"kind": "borefield_rows", "method": case["method"]})
+    ghe = out.search.ghe
+    g, gb = ghe.grab_g_function(ghe.B_spacing / float(ghe.bhe.b.H))
+    gt = res.g_function_data_rows
+    xs = [float(v) for v in g.x]
+    if any(not b > a for a, b in zip(xs, xs[1:])):
+        raise Violation("g-function time axis not strictly increasing", sig={"kind": "g_axis"})
+    if len(gt) != len(xs) + 1 or any([float(r[0]), float(r[1]), float(r[2])] != [float(x), float(y), float(z)]
+                                     for r, x, y, z in zip(gt[1:], g.x, g.y, gb.y)):
+        raise Violation("Gfunction table differs from the curve used by the simulation at the final height",
+                        sig={"kind": "g_row", "method": case["method"]})
+    hourly = gs.loads_for(case)
+    lr = res.hourly_loading_data_rows
+    if len(lr) != 8761 or any(list(lr[h + 1][:4]) != [*gl.month_of_hour(h), h] or lr[h + 1][4] != hourly[h] for h in range(8760)):
+        raise Violation("Loadings table does not echo the 8760 inputs with calendar labels", sig={"kind": "loadings_row"})
+    rec.cls("method_" + case["method"])
+    rec.nontriv((case["method"], len(sel), round(out.H, 3)))
+    rec.sample({"method": case["method"], "N": len(sel), "H": out.H, "g_rows": len(xs)})
+
+
+def check_selected_field_l1(case, rec):
+    """L1 seam: after a real search on a real candidate list the bore-field table must list exactly the selected coordinates"""
+    from props import c02
+    from vlib import gen_scenarios as gs
+
+    res, out, h, fields, model, info = guarded(c02._run_l1, case, what="search construction")
+    if not fields or isinstance(res, Exception):
+        rec.cls("no_design")
+        return
+    rows = guarded(_om().get_borehole_location_data, res, what="get_borehole_location_data")
+    sel = [[float(x), float(y)] for x, y in res.selected_coordinates]
+    got = [[float(r[0]), float(r[1])] for r in rows[1:]]
+    if got != sel:
+        raise Violation(f"BoreFieldData lists {len(got)} boreholes, the search selected a field of {len(sel)} "
+                        f"({case['lot']['method']})", sig={"kind": "borefield_not_selected_field", "method": case["lot"]["method"]})
+    rec.cls("method_" + case["lot"]["method"])
+    rec.nontriv(case)
+    rec.sample({"method": case["lot"]["method"], "N": len(sel)})
+
+
+def search_selected_field_l1(ctx):
+    from props import c02
+
+    ctx.given(c02.l1_case().map(lambda c: dict(c, mode="inside")), ctx.n(4000, 200_000))
+
+
+def search_design_tables(ctx):
+    from vlib import gen_scenarios as gs
+
+    gs.run_stratified(ctx, ctx.total(12, 200), outcomes=["inside", "huge"])
+
+
 SUBS = [
     Sub("hours", check_hour, search_hours, exhaustive=lambda t: True),
     Sub("month_ends", check_month_ends, search_month_ends, exhaustive=lambda t: True),
     Sub("months", check_months, search_months, shards=lambda t: 6),
     Sub("tables", check_tables, search_tables, shards=lambda t: 8),
+    Sub("design_tables", check_design_tables, search_design_tables, shards=lambda t: 12),
+    Sub("selected_field_l1", check_selected_field_l1, search_selected_field_l1, shards=lambda t: 4),
 ]
